@@ -409,6 +409,14 @@ def m_tuple(I, args, kwargs):
     if not args:
         return ()
     v = args[0]
+    ci = I.custom_iter(v)
+    if ci is not None and (is_sym(v) or isinstance(v, Ref)):
+        g = I.call_value(ci, [v], {})
+        if isinstance(g, GenVal) and g.kind == 'genfn':
+            g = I.run_generator(g)
+        if isinstance(g, Opaque):
+            return g
+        return m_tuple(I, [g], {})
     items = I.try_iter_concrete(v)
     if items is not None:
         return tuple(items)
@@ -430,6 +438,14 @@ def m_list(I, args, kwargs):
     if not args:
         return I.alloc(ListCell(items=[]))
     v = args[0]
+    ci = I.custom_iter(v)
+    if ci is not None and (is_sym(v) or isinstance(v, Ref)):
+        g = I.call_value(ci, [v], {})
+        if isinstance(g, GenVal) and g.kind == 'genfn':
+            g = I.run_generator(g)
+        if isinstance(g, Opaque):
+            return g
+        return m_list(I, [g], {})
     items = I.try_iter_concrete(v)
     if items is not None:
         return I.alloc(ListCell(items=list(items)))
@@ -547,10 +563,33 @@ def m_any_all(which):
                 if which == 'all' and not t:
                     return False
             return which == 'all'
-        if isinstance(v, GenVal) and v.kind == 'genexp':
-            from .gens2 import quantified_genexp
-            return quantified_genexp(I, v, which)
-        raise OutOfReach('%s over symbolic iterable' % which)
+        # symbolic-length sequence: truthiness of the elements under a quantifier
+        try:
+            from .gens import iteration_protocol
+            length, elem = iteration_protocol(I, v)
+        except OutOfReach:
+            raise OutOfReach('%s over symbolic iterable' % which)
+        I.qdepth = getattr(I, 'qdepth', 0) + 1
+        q = z3.Int('q%d_any' % I.qdepth)
+        saved_pc, saved_seen = I.st.pc, I.facts_seen
+        I.st.pc = list(saved_pc)
+        I.facts_seen = set(saved_seen)
+        n0 = len(I.st.pc)
+        I.pure += 1
+        try:
+            bt = I.bool_term(elem(q))
+            local = I.st.pc[n0:]
+        finally:
+            I.pure -= 1
+            I.st.pc, I.facts_seen = saved_pc, saved_seen
+            I.qdepth -= 1
+        bt = z3.BoolVal(bt) if isinstance(bt, bool) else bt
+        dom = z3.And(q >= 0, q < length)
+        if which == 'any':
+            body = z3.And(*(local + [bt])) if local else bt
+            return I.wrap_bool(z3.Exists([q], z3.And(dom, body)))
+        body = z3.Implies(z3.And(*local), bt) if local else bt
+        return I.wrap_bool(z3.ForAll([q], z3.Implies(dom, body)))
     return f
 
 
@@ -755,13 +794,26 @@ def m_time(I, args, kwargs):
 NATIVE_OK = set()
 
 
+def m_cscriptop(I, args, kwargs):
+    from bitcoin.core.script import CScriptOp
+    n = args[0]
+    if isinstance(n, int):
+        return CScriptOp(n)
+    t = I.int_term(n)
+    if I.pure or I.decide(z3.And(t >= 0, t <= 255)):
+        return SInt(t, CScriptOp)
+    if I.decide(z3.And(t >= -256, t < 0)):
+        return SInt(I.rw(t + 256), CScriptOp)
+    raise OutOfReach('CScriptOp(n) with n outside -256..255 (mutates the opcode table)')
+
+
 def int_of_bytes(I, t, little):
     n = I.unique_value(z3.Length(t))
     if n is None:
         raise OutOfReach('le_int/be_int of a byte string of symbolic length')
-    if n in (1, 2, 4, 8):
+    if n in (1, 2, 4, 8) and not (I.config.get('byte_level') and n > 4):
         return unpack_uint(I, t, n, little)
-    if n % 4 == 0:
+    if n % 4 == 0 and not I.config.get('byte_level'):
         s = z3.IntVal(0)
         cnt = n // 4
         for k in range(cnt):
@@ -892,6 +944,11 @@ def build_models(I):
     reg(binascii.hexlify, m_hexlify)
     reg(binascii.unhexlify, m_unhexlify)
     reg(io.BytesIO, m_bytesio)
+    try:
+        from bitcoin.core.script import CScriptOp as _COp
+        reg(_COp, m_cscriptop)
+    except ImportError:
+        pass
     from . import dsl as _dsl
     reg(_dsl.sdata, m_sdata)
     reg(_dsl.spos, m_spos)
